@@ -8,6 +8,10 @@ Pick == ph = "start" /\ ph' = "mid" /\ i' \in 1..Len(BaseSeq) /\ d' = <<>>
 Emit == /\ ph = "mid" /\ ph' = "case" /\ i' = i
         /\ d' \in Descr(BaseSeq[i])
         /\ PrintT(ToJson([k |-> "CASE", kind |-> "pair", a |-> BaseSeq[i], b |-> Variant(BaseSeq[i], d'), how |-> d'[1]]))
+        \* the same pair one and two levels down inside a GeometryCollection: what holds for two values holds for the
+        \* collections that contain them (Eq / EqIO are defined by recursion over the members)
+        /\ PrintT(ToJson([k |-> "CASE", kind |-> "pair", a |-> Wrap(BaseSeq[i], 1), b |-> Wrap(Variant(BaseSeq[i], d'), 1), how |-> "gc:" \o d'[1]]))
+        /\ PrintT(ToJson([k |-> "CASE", kind |-> "pair", a |-> Wrap(BaseSeq[i], 2), b |-> Wrap(Variant(BaseSeq[i], d'), 2), how |-> "gcgc:" \o d'[1]]))
 Next == Pick \/ Emit
 Spec == Init /\ [][Next]_<<ph, i, d>>
 =============================================================================
